@@ -30,3 +30,42 @@ impl Decoded {
 /// other than inequality of the str values)
 pub axiom fn ax_str_ext(a: &str, b: &str)
     ensures a@ == b@ ==> a == b;
+
+// ---- TRUSTED: std's iterator adapters as used by input_path_to_segments, with their documented contracts ----
+/// str::split('/'): the pieces between slashes, in order (always at least one piece; no piece contains a '/')
+pub uninterp spec fn slash_strs<'a>(s: &'a str) -> Seq<&'a str>;
+/// the lazy iterator over the pieces (std::str::Split), possibly filtered
+pub struct Pieces<'a> { pub pieces: Ghost<Seq<&'a str>> }
+pub trait SplitSlash { fn split_slash(&self) -> Pieces<'_>; }
+impl SplitSlash for str {
+    #[verifier::external_body]
+    fn split_slash(&self) -> (r: Pieces<'_>) ensures r.pieces@ == slash_strs(self) { unimplemented!() }
+}
+impl<'a> Pieces<'a> {
+    /// Iterator::filter: keeps, in order, exactly the items on which the predicate returns true.  Stated for every
+    /// spec predicate `q` that every possible result of the closure agrees with.
+    #[verifier::external_body]
+    pub fn filter<F: Fn(&&'a str) -> bool>(self, f: F) -> (r: Pieces<'a>)
+        requires forall|p: &&'a str| call_requires(f, (p,)),
+        ensures forall|q: spec_fn(&'a str) -> bool| (forall|p: &'a str, b: bool| #[trigger] call_ensures(f, (&p,), b) ==> b == q(p))
+                    ==> r.pieces@ == #[trigger] self.pieces@.filter(q),
+    { unimplemented!() }
+    /// Iterator::map (lazy): nothing happens until `collect`
+    #[verifier::external_body]
+    pub fn map<G: Fn(&'a str) -> Result<String, String>>(self, g: G) -> (r: MappedPieces<'a, G>)
+        ensures r.pieces@ == self.pieces@, r.g == g,
+    { unimplemented!() }
+}
+pub struct MappedPieces<'a, G> { pub pieces: Ghost<Seq<&'a str>>, pub g: G }
+impl<'a, G: Fn(&'a str) -> Result<String, String>> MappedPieces<'a, G> {
+    /// `collect::<Result<Vec<_>, _>>()`: applies the function to each item in order; all Ok: the Vec of the values in
+    /// order; otherwise the first Err
+    #[verifier::external_body]
+    pub fn collect(self) -> (r: Result<Vec<String>, String>)
+        requires forall|p: &'a str| call_requires(self.g, (p,)),
+        ensures
+            r is Ok ==> r->Ok_0@.len() == self.pieces@.len()
+                && forall|i: int| 0 <= i < self.pieces@.len() ==> call_ensures(self.g, (#[trigger] self.pieces@[i],), Ok::<String, String>(r->Ok_0@[i])),
+            r is Err ==> exists|i: int| 0 <= i < self.pieces@.len() && call_ensures(self.g, (#[trigger] self.pieces@[i],), Err::<String, String>(r->Err_0)),
+    { unimplemented!() }
+}
